@@ -9,7 +9,32 @@ import (
 	"github.com/free5gc/nas/nasType"
 	"github.com/free5gc/nas/uePolicyContainer"
 	"github.com/free5gc/openapi/models"
+
+	"verifharness/hk"
 )
+
+// inputs shared (read-only) by every goroutine; built with append, so they have spare capacity
+var sharedPlmn = models.PlmnId{Mcc: "208", Mnc: "93"}
+var sharedSnssaiList = append(make([]models.Snssai, 0, 8), models.Snssai{Sst: 1, Sd: "010203"}, models.Snssai{Sst: 2})
+var sharedTaiList = append(make([]models.Tai, 0, 8), models.Tai{PlmnId: &sharedPlmn, Tac: "000001"}, models.Tai{PlmnId: &sharedPlmn, Tac: "000002"})
+
+// sharedInputsIntact: the library only read them (also beyond len, inside the spare capacity)
+func sharedInputsIntact() bool {
+	full := sharedSnssaiList[:cap(sharedSnssaiList)]
+	for i, e := range full {
+		switch {
+		case i == 0 && (e.Sst != 1 || e.Sd != "010203"), i == 1 && (e.Sst != 2 || e.Sd != ""), i >= 2 && (e.Sst != 0 || e.Sd != ""):
+			return false
+		}
+	}
+	ft := sharedTaiList[:cap(sharedTaiList)]
+	for i, e := range ft {
+		if i >= 2 && (e.PlmnId != nil || e.Tac != "") {
+			return false
+		}
+	}
+	return len(sharedSnssaiList) == 2 && len(sharedTaiList) == 2
+}
 
 // more call kinds for a goroutine's program: the conversion helpers (time, timers, names, NSSAI, lists),
 // QoS rules / flow descriptions, PCO, UE policy container; every value is built from x and private
@@ -68,13 +93,17 @@ func extraOps(x uint64, w func(format string, a ...interface{})) {
 		back := nasConvert.SnssaiToModels(&v)
 		w("s%x|%d|%s|%x", enc, back.Sst, back.Sd, nasConvert.RejectedSnssaiToNas(sn, uint8(x%2)))
 		var rq nasType.RequestedNSSAI
-		buf := append(append([]byte{}, enc...), enc...)
+		buf := append(hk.Exact(enc), enc...)
 		rq.SetLen(uint8(len(buf)))
 		rq.Buffer = buf
 		l, err := nasConvert.RequestedNssaiToModels(&rq)
 		w("%d%v", len(l), err == nil)
 		rj := nasConvert.RejectedNssaiToNas([]models.Snssai{sn}, []models.Snssai{sn})
 		w("%x", rj.Buffer)
+		// read-only use of inputs shared by all goroutines (a configured list with spare capacity, as append builds it)
+		rs := nasConvert.RejectedNssaiToNas(sharedSnssaiList, []models.Snssai{sn})
+		w("%x", rs.Buffer)
+		w("%x", nasConvert.TaiListToNas(sharedTaiList))
 	case 5:
 		p := models.PlmnId{Mcc: "20" + string(rune('0'+x%10)), Mnc: "9" + string(rune('0'+(x>>4)%10))}
 		tais := []models.Tai{{PlmnId: &p, Tac: "0000" + string("0123456789abcdef"[x%16]) + "1"}, {PlmnId: &p, Tac: "00aa01"}}
